@@ -718,6 +718,31 @@ def _run(spec, rec, d):
             c.k = k
             {"scatter": q_scatter, "contour": q_contour,
              "downsample": q_downsample, "tsv": q_tsv}[q["q"]](c, q)
+        huge = any(np.abs(np.asarray(a_, dtype=float)[_finite(a_)]).max(initial=0.0)
+                   > 1e100 for a_ in (x, y, z))
+        if enable and not sel.all() and huge:
+            rec.skip("disabled-without-reapply:huge-poison-values-overflow-SD")
+        if enable and not sel.all() and not huge:
+            # "with filtering disabled all events are used": switch the filters
+            # off *without* re-applying them (filter.all is stale) - statistics
+            # must be those of the dataset holding all events
+            rec.cls("disabled-without-reapply")
+            A.config["filtering"]["enable filters"] = False
+            allsel = np.ones(n, dtype=bool)
+            Bf = dclab.new_dataset({names[0]: x, names[1]: y, names[2]: z})
+            Bf.apply_filter()
+            c2 = Ctx()
+            c2.rec, c2.A, c2.B, c2.names, c2.sel, c2.nsel, c2.n = \
+                rec, A, Bf, names, allsel, n, n
+            c2.arrs, c2.selarrs, c2.enable, c2.dir = arrs, [x, y, z], False, d
+            c2.fmt, c2.unsigned = fmt, unsigned
+            # only the statistics of feature values: 'Events' and '%-gated'
+            # describe the (stale, not re-applied) filter array itself
+            s2 = dict(spec["stats"])
+            m2 = [m for m in (s2["methods"] or []) if m in
+                  ("Mean", "Median", "Mode", "SD")] or ["Mean", "Median", "SD"]
+            s2["methods"] = m2
+            q_stats(c2, s2)
     finally:
         A.close()
 
